@@ -14,7 +14,7 @@
 #include "vjson.hpp"
 #include "vguard.hpp"
 using namespace rtosc;
-struct Obj { int i; int n; float f; float l; bool t; float fx; bool ty; };
+struct Obj { int i; int n; float f; float l; bool t; float fx; bool ty; char c; int m; };
 #define rObject Obj
 static const Ports ports = {
     // look-alikes: ports whose names merely START with the name of a bound parameter, declared before it, with another type / range
@@ -25,6 +25,8 @@ static const Ports ports = {
     rParamF(f, rLinear(-2.5, 10.25), "float"),
     rParamF(l, rLog(0.01, 100), "log float"),
     rToggle(t, "toggle"),
+    rParam(c, "char parameter 0..127 (the plain rParam macro)"),
+    rParamI(m, rLog(1, 1000), "integer parameter on a log scale"),
 };
 #undef rObject
 static const int NS = 4, PS = 2;
@@ -36,7 +38,7 @@ struct World {
         w.key("out").arr();
         for (auto &s : out) { const char *msg = s.c_str(); unsigned na = rtosc_narguments(msg); char t = na ? rtosc_type(msg, 0) : (rtosc_argument_string(msg)[0]);
             w.obj().kstr("p", msg).kstr("ty", std::string(1, t));
-            if (t == 'i') w.knum("v", (long)rtosc_argument(msg, 0).i * 128).knum("vlog", 0);
+            if (t == 'i' || t == 'c') w.knum("v", (long)rtosc_argument(msg, 0).i * 128).knum("vlog", 0);
             else if (t == 'f') { double d = rtosc_argument(msg, 0).f; w.knum("v", lround(d * 128.0)).knum("vlog", lround(d * 1e6 > 2e9 ? 2e9 : d * 1e6)); }
             else w.knum("v", t == 'T' ? 1 : 0).knum("vlog", 0);
             w.end_obj(); }
@@ -76,20 +78,20 @@ int main(int argc, char **argv) {
     }
     if (mode == "random") {
         FILE *out = fopen(argv[4], "w"); if (!out) return 2; std::mt19937_64 rng(strtoull(argv[2], 0, 10) * 131 + 9); long count = atol(argv[3]);
-        static const char *P[5] = {"/i", "/n", "/f", "/l", "/t"}; static const int G[4] = {100, 50, 200, -100}; static const int O[3] = {0, 25, -25}; static const int C[7] = {1, 2, 3, 130, 7, 127, 0};   // 127 and 0 are also the ids of the NRPNs (0,127) and (0,0)
+        static const char *P[7] = {"/i", "/n", "/f", "/l", "/t", "/c", "/m"}; static const int G[4] = {100, 50, 200, -100}; static const int O[3] = {0, 25, -25}; static const int C[7] = {1, 2, 3, 130, 7, 127, 0};   // 127 and 0 are also the ids of the NRPNs (0,127) and (0,0)
         for (long i = 0; i < count; ++i) { World wd; JW ev; ev.arr(); int n = 1 + (int)(rng() % 40);
             int sig = vg_run(20, [&] { for (int k = 0; k < n; ++k) { int r = (int)(rng() % 14); J j;
                 if (r >= 12) {   // a complete NRPN (parameter (hi, lo), value with equal halves) - where the statement speaks: no slot may be waiting while the
                     // message is being assembled (the code would hand the half-assembled message to the learner); a learn request may arrive before the last part
                     int hi = rng() % 3 ? 0 : 127, lo = rng() % 2 ? 127 : 0, v = rng() % 2 ? 127 : 0; static const int T[3] = {99, 98, 6}; int vals[3] = {hi, lo, v};
                     for (int q = 0; q < 3; ++q) { J n = mk("nrpn"); addn(n, "type", T[q]); addn(n, "val", vals[q]); wd.step(n, ev); }
-                    if (rng() % 2) { J c = mk("create"); addn(c, "s", 1 + rng() % NS); add(c, "p", P[rng() % 5]); addb(c, "learn", true); wd.step(c, ev); }
+                    if (rng() % 2) { J c = mk("create"); addn(c, "s", 1 + rng() % NS); add(c, "p", P[rng() % 7]); addb(c, "learn", true); wd.step(c, ev); }
                     J n = mk("nrpn"); addn(n, "type", 38); addn(n, "val", v); wd.step(n, ev); continue; }
-                if (r < 3) { j = mk("create"); addn(j, "s", 1 + rng() % NS); add(j, "p", P[rng() % 5]); addb(j, "learn", rng() % 2); }
+                if (r < 3) { j = mk("create"); addn(j, "s", 1 + rng() % NS); add(j, "p", P[rng() % 7]); addb(j, "learn", rng() % 2); }
                 else if (r == 3) { j = mk("clear"); addn(j, "s", 1 + rng() % NS); }
                 else if (r == 4) { j = mk("clearsub"); addn(j, "s", 1 + rng() % NS); addn(j, "j", 1 + rng() % PS); }
                 else if (r == 5) { int s = (int)(rng() % NS), q = (int)(rng() % PS); j = mk("map"); addn(j, "s", s + 1); addn(j, "j", q + 1); addn(j, "gain", G[rng() % 4]); addn(j, "offset", O[rng() % 3]); }
-                else if (r == 6 && rng() % 2) { j = mk("path"); addn(j, "s", 1 + rng() % NS); addn(j, "j", 1 + rng() % PS); add(j, "p", P[rng() % 5]); }
+                else if (r == 6 && rng() % 2) { j = mk("path"); addn(j, "s", 1 + rng() % NS); addn(j, "j", 1 + rng() % PS); add(j, "p", P[rng() % 7]); }
                 else if (r < 9) { j = mk("set"); addn(j, "s", 1 + rng() % NS); addn(j, "v", (long)(rng() % 11) - 1); }
                 else { j = mk("cc"); addn(j, "c", C[rng() % 7]); addn(j, "val", rng() % 2 ? 127 : 0); }
                 wd.step(j, ev); } });
